@@ -141,6 +141,23 @@ def build_many(jobs):
     return res
 
 
+# executors that died on a signal while driving the real headers (an observation, not a machinery
+# failure): turned into violations by Check.finish()
+DEATHS = []
+
+
+def exit_ok(p, name):
+    """0 -> True; killed by a signal -> recorded as a death (what the executor logged before is still
+    judged), False; any other exit code -> broken machinery."""
+    if p.returncode == 0:
+        return True
+    if p.returncode < 0:
+        DEATHS.append({"executor": name, "signal": -p.returncode, "stderr": (p.stderr or "")[-300:].strip()})
+        log("[death] %s died on signal %d" % (name, -p.returncode))
+        return False
+    raise Broken("%s rc=%d %s" % (name, p.returncode, (p.stderr or "")[-300:]))
+
+
 def run(cmd, timeout=600, env=None, cwd=None, input=None):
     e = dict(os.environ)
     if env:
@@ -366,6 +383,10 @@ class Check:
             n = self.known_hits.get(fid, 0)
             print("KNOWN-FINDING: property=%s %s [%s; observed %d time(s) in this run]" %
                   (self.prop, e["what"], fid, n))
+        for d in DEATHS:
+            self.violation("executor %s died on signal %d while driving the real headers (never on the unchanged tree): %s" %
+                           (d["executor"], d["signal"], d["stderr"].replace("\n", " ")[-200:]), d)
+        del DEATHS[:]
         paths = []
         for i, (what, replay) in enumerate(self.violations[:20]):
             path = os.path.join(EVID, "replay", "%s-%d.json" % (self.prop, i))
